@@ -184,17 +184,23 @@ func tail(s string, n int) string {
 	return s
 }
 
-func runSfw(cwd string, args ...string) *runOut {
+func runSfw(cwd string, args ...string) *runOut { return runSfwEnv(cwd, nil, args...) }
+
+// runSfwEnv: extra environment entries (e.g. GOMAXPROCS=1) are appended to the ambient ones.
+func runSfwEnv(cwd string, env []string, args ...string) *runOut {
 	procSem <- struct{}{}
 	defer func() { <-procSem }()
 	ctx, cancel := context.WithTimeout(context.Background(), 10*time.Minute)
 	defer cancel()
 	cmd := exec.CommandContext(ctx, sfwBin, args...)
 	cmd.Dir = cwd
+	if len(env) > 0 {
+		cmd.Env = append(os.Environ(), env...)
+	}
 	var so, se bytes.Buffer
 	cmd.Stdout, cmd.Stderr = &so, &se
 	err := cmd.Run()
-	out := &runOut{Args: args, Cwd: cwd, Stdout: so.Bytes(), Stderr: se.String()}
+	out := &runOut{Args: append(append([]string{}, env...), args...), Cwd: cwd, Stdout: so.Bytes(), Stderr: se.String()}
 	if err != nil {
 		out.Err = err.Error()
 		out.RC = -1
@@ -866,6 +872,40 @@ func runTree(index int) {
 			res.Count("strict_clean_rc0", 1)
 		} else {
 			res.Count("strict_clean_rc_nonzero", 1)
+		}
+	}
+	// the same two runs with the per-file workers serialised (GOMAXPROCS=1) and with two
+	// threads: every file then meets whatever state its siblings left behind, in file order
+	for _, procs := range []string{"GOMAXPROCS=1", "GOMAXPROCS=2"} {
+		env := []string{procs}
+		mode := "check@" + procs
+		p1 := runSfwEnv(cwd, env, "check", "--no-sandbox", target)
+		s1 := runSfwEnv(cwd, env, "check", "--no-sandbox", "--strict", target)
+		if timedOut(p1) || timedOut(s1) {
+			continue
+		}
+		dist("schedule/" + procs)
+		pf := &rec{}
+		p1Err, p1ok := judgeCheck(t, p1, mode, pf)
+		if !p1ok {
+			pf.Eval(1)
+			pf.Violate("no-output", mode+"/no-output", fmt.Sprintf("tree %d: `%s sfw check` rc=%d printed no JSON: %s", t.Index, procs, p1.RC, tail(p1.Stderr, 300)), p1.replay(t))
+		}
+		settle(pf, func() *rec {
+			again := &rec{quiet: true}
+			if _, ok := judgeCheck(t, runSfwEnv(cwd, env, "check", "--no-sandbox", target), mode, again); !ok {
+				again.Violate("no-output", "", "", nil)
+			}
+			return again
+		})
+		s1Err, s1ok := judgeCheck(t, s1, mode+"-strict", &rec{quiet: true})
+		res.Eval(1)
+		if badPresent || (p1ok && p1Err) {
+			if s1.RC == 0 && ((s1ok && s1Err) || runSfwEnv(cwd, env, "check", "--no-sandbox", "--strict", target).RC == 0) {
+				res.Violate("strict/exit-zero-despite-errors", fmt.Sprintf("tree %d: `%s sfw check --strict` exited 0 although files had errors (unanalysable files present=%v, errors in non-strict JSON=%v)", t.Index, procs, badPresent, p1Err), s1.replay(t))
+			} else if s1.RC != 0 {
+				res.Count("strict_failed_with_errors", 1)
+			}
 		}
 	}
 	if os.Getenv("C16_KEEP_OUT") != "" {
